@@ -111,6 +111,18 @@ def toRQ {β : Type} (name : β → Str) (q : DQuad β) : RQ :=
   let f : Term β → T := Term.map (fun b => BN.orig (name b))
   ⟨some (f q.t.s), q.t.p, some (f q.t.o), q.g.map f⟩
 
+/-- the object is not an untagged literal of datatype rdf:langString / rdf:dirLangString (such a literal
+    is not an RDF literal; `C10.WFDataset` admits it, the decoder drops it — see `flat_drops_untagged`) -/
+def plainOK {β : Type} : Term β → Bool
+  | .lit _ dt none => dt != rdfLangString && dt != rdfDirLangString
+  | _ => true
+
+/-- no quad of the dataset has such an object -/
+def NoUntaggedLangString {β : Type} (d : List (DQuad β)) : Prop := ∀ q ∈ d, plainOK q.t.o = true
+
+instance {β : Type} (d : List (DQuad β)) : Decidable (NoUntaggedLangString d) := by
+  unfold NoUntaggedLangString; exact inferInstance
+
 /-- an emitted statement as a quad of the fragment semantics (`none` if a term is nil) -/
 def RQ.toQ (q : RQ) : Option (DQuad B) :=
   match q.s, q.o with
